@@ -25,8 +25,12 @@ def gen_call(rng, maxdep, has_ctx, root=False):
     deps = [rng.randrange(maxdep) for _ in range(n)]
     if deps and rng.random() < 0.25:
         deps.append(rng.choice(deps))          # the same dependency repeated in one call
-    return {"style": rng.choice(["par", "par", "ser"]), "ctx": "fwd" if (has_ctx and rng.random() < 0.5) else "bg",
-            "deps": deps, "guarded": rng.random() < (0.8 if root else 0.45)}
+    c = {"style": rng.choice(["par", "par", "ser"]), "ctx": "fwd" if (has_ctx and rng.random() < 0.5) else "bg",
+         "deps": deps, "guarded": rng.random() < (0.8 if root else 0.45)}
+    if rng.random() < 0.3:
+        # some mentions name a plain function as mg.F(f): the same dependency as the bare f
+        c["wrap"] = [rng.random() < 0.5 for _ in deps]
+    return c
 
 
 def gen_program(rng, nmax=8, serial_bias=False, fail_rate=0.35):
@@ -77,7 +81,10 @@ def gen_program(rng, nmax=8, serial_bias=False, fail_rate=0.35):
             for c in calls:
                 if rng.random() < 0.6:
                     c["style"] = "ser"
-        roots.append({"ctx": ctxk, "calls": calls})
+        root = {"ctx": ctxk, "calls": calls}
+        if ctxk == "tag" and rng.random() < 0.35:
+            root["cancel_after"] = rng.choice([1, 1, 2, 3, 5])    # the context is cancelled mid-run: nothing may change
+        roots.append(root)
     ngates = sum(len(nd["calls"]) + 1 for nd in nodes) + sum(len(r["calls"]) + 1 for r in roots)
     prio = list(range(ngates))
     rng.shuffle(prio)
